@@ -178,6 +178,36 @@ pub fn tcr_write_keeps_phase<S: Src>(s: &mut S) {
     verdict!("outcome" => ok_outcome, "prescaler" => ok_prescaler, "phase" => ok_phase);
 }
 
+/// Two consecutive CPU writes to TCR (old -> mid -> new) from a state satisfying the phase invariant:
+/// the invariant (running => 0 <= residual < divisor) holds after each write.  The single-write harness
+/// above assumes "stopped => residual 0" for its pre-state, which is one of two reasonable implementations
+/// (clear when stopping / clear when restarting); this harness decides stop-then-restart sequences without
+/// fixing that choice.
+pub fn tcr_two_writes<S: Src>(s: &mut S) {
+    let old = s.u8();
+    let mid = s.u8();
+    let new = s.u8();
+    let res0 = s.u16();
+    s.assume(old & 7 <= 3 && mid & 7 <= 3 && new & 7 <= 3);
+    let d0 = divisor(old);
+    s.assume(d0 != 0 && (res0 as u32) < d0);
+    let mut cpu = Cpu::new();
+    cpu.vh_module_manager().borrow_mut().write_registers(TCR0_ADDR, old);
+    cpu.vh_module_manager().borrow_mut().vh_timer8_0_set_state(res0);
+    let r1 = cpu.bus.write(TCR0_ADDR, mid);
+    let (st1, presc1) = cpu.vh_module_manager().borrow().vh_timer8_0();
+    let r2 = cpu.bus.write(TCR0_ADDR, new);
+    let (st2, presc2) = cpu.vh_module_manager().borrow().vh_timer8_0();
+    let (d1, d2) = (divisor(mid), divisor(new));
+    let ok_outcome = r1.is_ok() && r2.is_ok() && cpu.bus.io_registrs2[I_TCR] == new;
+    let ok_prescaler = presc1 as u32 == d1 && presc2 as u32 == d2;
+    let ok_phase = (d1 == 0 || (st1 as u32) < d1) && (d2 == 0 || (st2 as u32) < d2);
+    witness!(d0 == 64 && d1 == 0 && d2 == 8 && res0 >= 8, "stop, then restart with a smaller divisor");
+    witness!(d0 == 8192 && d1 == 64 && d2 == 8 && res0 >= 64, "two successive reductions");
+    std::mem::forget(cpu);
+    verdict!("outcome" => ok_outcome, "prescaler" => ok_prescaler, "phase" => ok_phase);
+}
+
 /// Arithmetic lemma behind partition independence: splitting a charge never loses or gains a tick.
 pub fn partition_lemma<S: Src>(s: &mut S) {
     let cks = s.u8();
